@@ -3,6 +3,7 @@
 package handshake
 
 import (
+	cryptopb "github.com/libp2p/go-libp2p/core/crypto/pb"
 	"context"
 	crand "crypto/rand"
 	"crypto/ecdsa"
@@ -64,6 +65,29 @@ type c06Conn struct {
 	c net.Conn
 	r protoio.ReadCloser
 	w protoio.WriteCloser
+}
+
+// the points of small order on edwards25519 in canonical encoding: neutral element (order 1), order 2, two of order 4,
+// four of order 8
+func c06SmallOrderEd25519() [][32]byte {
+	hexes := []string{
+		"0100000000000000000000000000000000000000000000000000000000000000",
+		"ecffffffffffffffffffffffffffffffffffffffffffffffffffffffffffff7f",
+		"0000000000000000000000000000000000000000000000000000000000000000",
+		"0000000000000000000000000000000000000000000000000000000000000080",
+		"26e8958fc2b227b045c3f489f2ef98f0d5dfac05d3c63339b13802886d53fc05",
+		"26e8958fc2b227b045c3f489f2ef98f0d5dfac05d3c63339b13802886d53fc85",
+		"c7176a703d4dd84fba3c0b760d10670f2a2053fa2c39ccc64ec7fd7792ac037a",
+		"c7176a703d4dd84fba3c0b760d10670f2a2053fa2c39ccc64ec7fd7792ac03fa",
+	}
+	var out [][32]byte
+	for _, h := range hexes {
+		b, _ := hex.DecodeString(h)
+		var a [32]byte
+		copy(a[:], b)
+		out = append(out, a)
+	}
+	return out
 }
 
 func c06Pipe() (*c06Conn, *c06Conn) {
@@ -419,6 +443,75 @@ func c06Catalogue(k *c06Keys, rt *rapid.T) []c06Outcome {
 			}
 			_ = cm.w.WriteMsg(&RequesterAcknowledgePayload{Success: true})
 		}))
+	}
+	// 2b. identity keys without a private half: the eight points of small order on the Ed25519 curve are valid
+	// encodings of a public key, and for them signatures can be made by anybody (for the neutral element the pair
+	// R = neutral element, S = 0 verifies over every message). A responder that reports such a key reports a key whose
+	// private half nobody proved to hold.
+	for pi, pt := range c06SmallOrderEd25519() {
+		pt := pt
+		out = append(out, c06AttackResponder(k, fmt.Sprintf("small-order-identity-key/%d", pi), func(cm *c06Conn, o *c06Outcome) {
+			if cm.sendHello(honestPub) != nil {
+				return
+			}
+			b, err := cm.readHello()
+			if err != nil {
+				return
+			}
+			ab := c06Shared(b, honestPriv)
+			aB := c06Shared(c06MontPub(k.B.GetPublic()), honestPriv)
+			pkBytes, err := proto.Marshal(&cryptopb.PublicKey{Type: cryptopb.KeyType_Ed25519.Enum(), Data: pt[:]})
+			if err != nil {
+				return
+			}
+			// R = the point itself (or the neutral element), S = 0: [0]B = R + [h]A holds whenever R + [h]A is neutral
+			sig := make([]byte, 64)
+			copy(sig, c06SmallOrderEd25519()[0][:]) // R = neutral element
+			o.passedBox = true
+			if cm.sendBox(c06BoxKey(ab, aB), &c06NonceAuth, &RequesterAuthenticatePayload{RequesterAccountId: pkBytes, RequesterAccountSig: sig}) != nil {
+				return
+			}
+			if _, err := cm.readBoxRaw(); err != nil {
+				return
+			}
+			_ = cm.w.WriteMsg(&RequesterAcknowledgePayload{Success: true})
+		}))
+	}
+	// 2c. the same keys as the account the requester wants to reach (e.g. taken from a contact link made by the
+	// adversary): nobody holds their private half, so the requester must not succeed
+	for pi, pt := range c06SmallOrderEd25519() {
+		pt := pt
+		target, err := p2pcrypto.UnmarshalEd25519PublicKey(pt[:])
+		if err != nil {
+			continue
+		}
+		o := c06Outcome{label: fmt.Sprintf("small-order-target-key/%d", pi)}
+		ca, cm := c06Pipe()
+		done := c06RunRequester(ca, k.A, target)
+		_ = cm.c.SetDeadline(time.Now().Add(5 * time.Second))
+		func() {
+			a, err := cm.readHello()
+			if err != nil || cm.sendHello(honestPub) != nil {
+				return
+			}
+			if _, err := cm.readBoxRaw(); err != nil {
+				return
+			}
+			o.passedBox = true
+			ab := c06Shared(a, honestPriv)
+			// A.B is the constant of the zero point: the target's curve25519 form has small order
+			sig := make([]byte, 64)
+			copy(sig, c06SmallOrderEd25519()[0][:])
+			_ = cm.sendBox(c06BoxKey(ab, zeroShared), &c06NonceAccept, &ResponderAcceptPayload{ResponderAccountSig: sig})
+			var ack RequesterAcknowledgePayload
+			_ = cm.r.ReadMsg(&ack)
+		}()
+		_ = cm.c.Close()
+		if res := <-done; res.err == nil {
+			o.violation = "requester-accepted-impostor"
+			o.msg = fmt.Sprintf("attack %q: the requester completed the handshake with a peer holding no private key (the targeted account key has small order)", o.label)
+		}
+		out = append(out, o)
 	}
 	// 4b. live relay between two concurrent sessions: honest A sends a request to M (targets M's account); M, holding
 	// no key of A, opens a session to B and copies A's frames into it. B's peer never proves possession of A's key
